@@ -92,12 +92,24 @@ def level_facts(py: PyRepo, ci: ClassInfo, meth: str, _depth: int = 0) -> Method
     mf = MethodFacts(ci.name, meth, params)
     mf.node = fn
     mf.decorated = [ast.unparse(d) for d in fn.decorator_list]
-    ev = PyEval()
+    def resolver(call, env, _ev):
+        """`self._helper(..)` of the same class hierarchy (not an interpreter call, no loops): evaluated in place"""
+        f = call.func
+        if isinstance(f, ast.Attribute) and isinstance(f.value, ast.Name) and f.value.id == 'self' and f.attr not in INTERP_METHODS \
+                and not f.attr.startswith('__'):
+            hit = py.find_method(ci, f.attr)
+            if hit is not None and not any(isinstance(n, (ast.For, ast.While)) for n in ast.walk(hit[1])) \
+                    and not any('property' in ast.unparse(d) for d in hit[1].decorator_list):
+                return hit[1], SELF
+        return None
+
+    ev = PyEval(resolver=resolver)
     try:
         paths = ev.paths(fn)
     except Decline as d:
         raise AnalysisError(f'{ci.name}.{meth}: outside the analysed subset: {d}')
     for p in paths:
+
         rec = {'conds': [(canon_value(c), b) for c, b in p.conds], 'binds': [], 'pushes': [], 'mem': [], 'claims': None,
                'supers': [], 'writes': [], 'loops': [], 'k': 0, 'n': None, 'subcalls': [], 'other': [],
                'ret': canon_value(p.end[1]) if p.end[0] == 'return' else None, 'end': p.end[0], 'node': p.node}
